@@ -298,3 +298,85 @@ Proof. intros Hw Hc Hf Ht Hs0 Hn Hr Hg1 Hg2 Hmd Hd Hi. repeat split.
   - destruct (dedisperse_spec_items fs nch w dec N g1 start nsamps Hw Hc Hf Ht Hs0 Hn Hr Hg1 md delays Hmd Hd) as [a [Ea Sa]].
     destruct (dedisperse_spec_items fs nch w dec N g2 start nsamps Hw Hc Hf Ht Hs0 Hn Hr Hg2 md delays Hmd Hd) as [b [Eb Sb]].
     exists a, b. repeat split; try assumption. intros t Htx. rewrite Sa, Sb by assumption. reflexivity. Qed.
+
+(** * the statistics theorems at the packed depths / for item-wide samples, pointwise: the data of channel c is the list of the
+      selected samples themselves (packed_sample / item_sample), not the column of an auxiliary byte-wide set *)
+Definition packed_column (fs : list file) (nbits : Z) (big : bool) (nch start nsamps c : Z) : list Q :=
+  map (fun t => inject_Z (packed_sample fs nbits big ((start + t) * nch + c))) (zrange nsamps).
+Definition item_column (fs : list file) (w : Z) (dec : list Z -> Z) (nch start nsamps c : Z) : list Q :=
+  map (fun t => inject_Z (item_sample fs w dec ((start + t) * nch + c))) (zrange nsamps).
+
+Lemma column_unpacked fs nch nbits big N start nsamps c :
+  In nbits [1; 2; 4] -> (nch * nbits) mod 8 = 0 -> 1 <= nch -> total fs = N * samp_bytes nch nbits ->
+  0 <= start -> start + nsamps <= N -> 0 <= c < nch ->
+  column (unpacked_set fs nbits big) nch start nsamps c = packed_column fs nbits big nch start nsamps c.
+Proof. intros Hnb Hdiv Hc Ht Hs0 Hr Hch. unfold column, packed_column. apply map_ext_in. intros t Hin. apply In_zrange in Hin.
+  f_equal. unfold SPP.Proofs.C07_transforms.Sel. apply X_unpacked; [assumption|].
+  eapply packed_index_ok; try eassumption. nia. Qed.
+
+Lemma column_items fs nch w dec N start nsamps c :
+  1 <= w -> 1 <= nch -> total fs = N * (nch * w) -> 0 <= start -> start + nsamps <= N -> 0 <= c < nch ->
+  column (items_set fs w dec) nch start nsamps c = item_column fs w dec nch start nsamps c.
+Proof. intros Hw Hc Ht Hs0 Hr Hch. unfold column, item_column. apply map_ext_in. intros t Hin. apply In_zrange in Hin.
+  f_equal. unfold SPP.Proofs.C07_transforms.Sel. eapply X_items; try eassumption. nia. Qed.
+
+Theorem stats_pointwise_packed fs nch nbits big N gulp start nsamps junk c full :
+  In nbits [1; 2; 4] -> (nch * nbits) mod 8 = 0 -> 1 <= nch ->
+  1 <= nfiles fs -> total fs = N * samp_bytes nch nbits -> Forall is_byte (flat fs) ->
+  0 <= start -> 1 <= nsamps -> start + nsamps <= N -> 1 <= gulp -> 0 <= c < nch -> nsamps < 2 ^ 31 ->
+  exists s, stats_pipe_packed fs nch nbits big gulp start nsamps full c junk = Some s /\
+    inv full (packed_column fs nbits big nch start nsamps c) s /\ inv_minmax (packed_column fs nbits big nch start nsamps c) s.
+Proof. intros Hnb Hdiv Hc Hf Ht Hb Hs0 Hn Hr Hg Hch Hsmall.
+  destruct (stats_spec_packed fs nch nbits big N gulp start nsamps junk Hnb Hdiv Hc Hf Ht Hb Hs0 Hn Hr Hg c full Hch Hsmall) as [s [E [I M]]].
+  rewrite (column_unpacked fs nch nbits big N start nsamps c Hnb Hdiv Hc Ht Hs0 Hr Hch) in I, M. exists s. auto. Qed.
+
+Theorem stats_pointwise_items fs nch w dec N gulp start nsamps c full :
+  1 <= w -> 1 <= nch -> 1 <= nfiles fs -> total fs = N * (nch * w) ->
+  0 <= start -> 1 <= nsamps -> start + nsamps <= N -> 1 <= gulp -> 0 <= c < nch -> nsamps < 2 ^ 31 ->
+  exists s, stats_pipe_items fs nch w dec gulp start nsamps full c = Some s /\
+    inv full (item_column fs w dec nch start nsamps c) s /\ inv_minmax (item_column fs w dec nch start nsamps c) s.
+Proof. intros Hw Hc Hf Ht Hs0 Hn Hr Hg Hch Hsmall.
+  destruct (stats_spec_items fs nch w dec N gulp start nsamps Hw Hc Hf Ht Hs0 Hn Hr Hg c full Hch Hsmall) as [s [E [I M]]].
+  rewrite (column_items fs nch w dec N start nsamps c Hw Hc Ht Hs0 Hr Hch) in I, M. exists s. auto. Qed.
+
+(** gulp-irrelevance of the statistics at the packed depths and for item-wide samples *)
+Theorem gulp_irrelevant_stats_packed fs nch nbits big N g1 g2 start nsamps junk1 junk2 c full :
+  In nbits [1; 2; 4] -> (nch * nbits) mod 8 = 0 -> 1 <= nch ->
+  1 <= nfiles fs -> total fs = N * samp_bytes nch nbits -> Forall is_byte (flat fs) ->
+  0 <= start -> 1 <= nsamps -> start + nsamps <= N -> 1 <= g1 -> 1 <= g2 -> 0 <= c < nch -> nsamps < 2 ^ 31 ->
+  exists s1 s2, stats_pipe_packed fs nch nbits big g1 start nsamps full c junk1 = Some s1 /\
+                stats_pipe_packed fs nch nbits big g2 start nsamps full c junk2 = Some s2 /\ st_agree full s1 s2.
+Proof. intros Hnb Hdiv Hc Hf Ht Hb Hs0 Hn Hr Hg1 Hg2 Hch Hsmall.
+  destruct (stats_pointwise_packed fs nch nbits big N g1 start nsamps junk1 c full Hnb Hdiv Hc Hf Ht Hb Hs0 Hn Hr Hg1 Hch Hsmall) as [s1 [E1 [I1 M1]]].
+  destruct (stats_pointwise_packed fs nch nbits big N g2 start nsamps junk2 c full Hnb Hdiv Hc Hf Ht Hb Hs0 Hn Hr Hg2 Hch Hsmall) as [s2 [E2 [I2 M2]]].
+  exists s1, s2. split; [exact E1|]. split; [exact E2|]. exact (inv_agree full _ s1 s2 I1 M1 I2 M2). Qed.
+
+Theorem gulp_irrelevant_stats_items fs nch w dec N g1 g2 start nsamps c full :
+  1 <= w -> 1 <= nch -> 1 <= nfiles fs -> total fs = N * (nch * w) ->
+  0 <= start -> 1 <= nsamps -> start + nsamps <= N -> 1 <= g1 -> 1 <= g2 -> 0 <= c < nch -> nsamps < 2 ^ 31 ->
+  exists s1 s2, stats_pipe_items fs nch w dec g1 start nsamps full c = Some s1 /\
+                stats_pipe_items fs nch w dec g2 start nsamps full c = Some s2 /\ st_agree full s1 s2.
+Proof. intros Hw Hc Hf Ht Hs0 Hn Hr Hg1 Hg2 Hch Hsmall.
+  destruct (stats_pointwise_items fs nch w dec N g1 start nsamps c full Hw Hc Hf Ht Hs0 Hn Hr Hg1 Hch Hsmall) as [s1 [E1 [I1 M1]]].
+  destruct (stats_pointwise_items fs nch w dec N g2 start nsamps c full Hw Hc Hf Ht Hs0 Hn Hr Hg2 Hch Hsmall) as [s2 [E2 [I2 M2]]].
+  exists s1, s2. split; [exact E1|]. split; [exact E2|]. exact (inv_agree full _ s1 s2 I1 M1 I2 M2). Qed.
+
+(** * dispersion delays of either sign: what base.py hands to the kernel ([dedisperse_norm], regenerated from Filterbank.dedisperse)
+      for law delays [raw] whose smallest value over the band is [mn] is a vector 0 <= d_c, so the dedispersion theorem applies to
+      ascending bands and negative DMs; its hypothesis "0 <= delays c" is discharged from the source, not assumed *)
+Lemma dedisperse_norm_nonneg raw mn nch : (forall c, 0 <= c < nch -> mn <= raw c) ->
+  forall c, 0 <= c < nch -> 0 <= dedisperse_norm mn (raw c).
+Proof. intros H c Hc. specialize (H c Hc). unfold dedisperse_norm. lia. Qed.
+
+Theorem dedisperse_spec_anysign fs nch N gulp start nsamps md raw mn :
+  1 <= nfiles fs -> 1 <= nch -> total fs = N * nch -> 0 <= start -> 1 <= nsamps -> start + nsamps <= N -> 1 <= gulp ->
+  (forall c, 0 <= c < nch -> mn <= raw c) ->
+  (forall c, 0 <= c < nch -> dedisperse_norm mn (raw c) <= md) -> 0 <= md < nsamps ->
+  exists out, dedisperse_pipe fs nch gulp start nsamps md (fun c => dedisperse_norm mn (raw c)) = Some out /\
+    forall t, 0 <= t < nsamps - md -> out t = dedisp fs nch start (fun c => dedisperse_norm mn (raw c)) t.
+Proof. intros Hf Hc Ht Hs0 Hn Hr Hg Hmn Hmax Hmd.
+  apply (dedisperse_spec fs nch N gulp start nsamps md (fun c => dedisperse_norm mn (raw c)) Hf Hc Ht Hs0 Hn Hr Hg Hmd).
+  intros c Hcx. split; [apply (dedisperse_norm_nonneg raw mn nch Hmn c Hcx)|apply Hmax; assumption]. Qed.
+
+Lemma read_chan_len_spec N start nsamps : read_chan_len N start nsamps 0 = nsamps /\ read_chan_len N start nsamps 1 = N - start.
+Proof. split; reflexivity. Qed.
